@@ -11,6 +11,7 @@ import (
 	"runtime"
 	"runtime/debug"
 	"strconv"
+	"strings"
 	"time"
 
 	"github.com/contiv/libOpenflow/cmd/hlib"
@@ -208,6 +209,18 @@ func worker(prop string, base uint64, from, count, stride int, limit float64, de
 		sum.Samples = append(sum.Samples, fallback)
 	}
 	sum.WallS = time.Since(start).Seconds()
+	// which decoder functions did the runs of this worker enter (zero entries are kept: the
+	// driver lists decoders no run reached)
+	sum.SiteHits = map[string]uint64{}
+	for i, s := range simrt.Sites {
+		if s.Kind != "func" || (s.Pkg != "openflow13" && s.Pkg != "protocol" && s.Pkg != "common" && s.Pkg != "util") {
+			continue
+		}
+		if strings.Contains(s.Func, "UnmarshalBinary") || strings.HasPrefix(s.Func, "Decode") || strings.HasPrefix(s.Func, "decode") ||
+			s.Func == "Parse" || strings.HasSuffix(s.Func, ").Write") || s.Func == "DHCPParseOptions" {
+			sum.SiteHits[s.Pkg+"."+s.Func] += simrt.SiteHits[i]
+		}
+	}
 	if hookSummary != nil {
 		hookSummary(sum)
 	}
